@@ -1404,12 +1404,15 @@ class Stage:
             ret._placeholders[k_new] = (species, payload, p_args, p_kwargs)
 
         ret.states = copy(self.states)
+        ret.qstates = copy(self.qstates)
         ret.controls = copy(self.controls)
         ret.algebraics = copy(self.algebraics)
         ret.parameters = deepcopy(self.parameters)
         ret.variables = deepcopy(self.variables)
 
         ret._offsets = deepcopy(self._offsets)
+        ret._inf_inert = copy(self._inf_inert)
+        ret._inf_der = copy(self._inf_der)
         ret._param_vals = copy(self._param_vals)
         # right-hand sides may depend on the template's time/horizon placeholders
         def subst_values(d):
